@@ -1,27 +1,27 @@
-\* C06 behaviour generation: 2 nodes, no tombstone collection, T = 1, gated workers with channel
-\* capacity 2 on both nodes.
+\* C04 behaviour generation with retention 0 (LeftIngestersTimeout = 0: tombstones are kept for ever, and still never shown): 3 nodes, T = 2;
+\* scripts as in Sim_c04_n3.
 CONSTANTS
-  N = 2
+  N = 3
   NI = 2
   NK = 2
-  MaxClock = 3
+  MaxClock = 6
   Retention = 0
-  T = 1
+  T = 2
   MaxCas = 8
-  MaxFaults = 4
+  MaxFaults = 2
   LiveStates = {"ACTIVE", "LEAVING", "PENDING"}
-  WatchNodes = {1, 2}
-  HoldNodes = {1, 2}
+  WatchNodes = {1, 2, 3}
+  HoldNodes = {1}
   AllowRestart = TRUE
   AllowGarbage = TRUE
-  AllowPartition = TRUE
-  AllowJunkPP = TRUE
-  GateNodes = {1, 2}
-  InboxCap = 2
+  AllowPartition = FALSE
+  AllowJunkPP = FALSE
+  GateNodes = {}
+  InboxCap = 1
   VersionTest = TRUE
   KeyTest = TRUE
-  MaxDel = 0
-  ObsoleteTimeout = 1
+  MaxDel = 1
+  ObsoleteTimeout = 2
   LockKeys = {}
   ConsumeNet = FALSE
   Ideal = TRUE
